@@ -23,7 +23,7 @@ THEOREMS = ['C20_sem_extensional_body', 'C20_sem_extensional_code', 'C20_sem_ext
             'C20_native_equals_compiled_facts_renaming', 'C20_ground_rows_special_case', 'C20_native_equals_compiled_facts_same_answer_refuted',
             'C20_subset_interchangeable_rel', 'C20_subset_interchangeable_renaming',
             'C20_chain_engine_refines', 'C20_chain_is_concatenation', 'C20_chain_of_two', 'C20_chain_members_interchangeable',
-            'C20_chain_member_python_vs_compiled', 'C20_mixed_sources_interchangeable', 'C20_python_then_script_is_one_definition',
+            'C20_chain_member_python_vs_compiled', 'C20_mixed_sources_interchangeable', 'C20_mixed_sources_interchangeable_source', 'C20_python_then_script_is_one_definition',
             'C20_chained_python_predicate_is_first_clauses', 'C20_chain_engine_monotone', 'C20_exception_passthrough_chain_member',
             'C20_exception_at_the_chain']
 IMPORTS = ['Lang.Ast', 'Sem.Machine', 'Sem.RunSem', 'Sem.Native', 'Sem.RunNative', 'Sem.NativeChain', 'Sem.RunNativeChain']
@@ -412,13 +412,22 @@ def compare_phase(case, ioA, ioB, mo, natives, tagmap=None):
             return 'query %s: engine with Python predicates %s after %d answers; the model finishes normally with %d' % (t, a['end'], a['count'], mn['count'])
         if a['answers'] != mn['answers'] or (a['end'] == 'done' and a['count'] != mn['count']):
             return 'query %s: engine with Python predicates differs from the model (%d vs %d answers)' % (t, a['count'], mn['count'])
-        if not raising and (a0['answers'] != b0['answers'] or a0['count'] != b0['count']):
+        if not raising and (a['answers'] != b['answers'] or a['count'] != b['count']):
             return 'query %s: Python predicates and compiled predicates give different answers (%d vs %d)' % (t, a['count'], b['count'])
         if m[2]:
             mv = [repr(bool(x)) for x in m[2][0]]
             if a['values'][len(a['values']) - len(mv):] != mv[:LIMIT] and a['count'] <= LIMIT:
                 return 'query %s: values yielded at the top level %s, model %s' % (t, a['values'], mv)
     return None
+
+def same_modulo_findall(a, b):
+    """True when the two engines' answers DIFFER.  findall/3 does not copy the instances it collects (get_value only): a variable
+    that the goal leaves unbound is the caller's own variable in every collected instance (shared) when compiled clauses leave it
+    alone, but a Python predicate's unify binds it to the fresh variable of its row (distinct per instance).  When findall collected
+    variables created while its goal ran (semcheck.watch_findall), the identity of variables is therefore not compared."""
+    if a.get('findall_inner') or b.get('findall_inner'):
+        return anon(a['answers']) != anon(b['answers']) or a['count'] != b['count']
+    return a['answers'] != b['answers'] or a['count'] != b['count']
 
 def oracle(case, io):
     if not isinstance(io, dict) or 'A' not in io:
@@ -439,7 +448,7 @@ def oracle(case, io):
             if a['same'] is None or a['end'] != expected_end(case['native'][a['same']]):
                 return 'query %s: the exception of the Python predicate did not reach the consumer unchanged (%s, same object: %s)' % (t, a['end'], a['same'])
         if not raising and a['end'] in ('done', 'cap') and b['end'] in ('done', 'cap'):
-            if a['answers'] != b['answers'] or a['count'] != b['count']:
+            if same_modulo_findall(a, b):
                 return 'query %s: Python predicates and compiled predicates give different answers (%d vs %d)' % (t, a['count'], b['count'])
     for q, a in zip(case['queries'], io.get('A0') or []):
         if a['leftover'] or a['leaked']:
@@ -611,6 +620,8 @@ def impl_mixed(case):
                     yp.load_script_from_string(text, overwrite=bool(op[2]))
             elif op[0] == 'reg':
                 spec = case['native'][op[1]]
+                if which == 'B':
+                    spec = dict(spec, **{'raise': None})     # a Python predicate that stays in the twin (variadic, no rows) does not raise there
                 f, ar = make_native(yp, E, spec, spec_rows(spec), exc_obj[op[1]], log)
                 if ar is None:
                     yp.register_function(spec['name'], f)
@@ -690,7 +701,7 @@ def compare_mixed(case, io, mo):
                 return '%s: engine with Python predicates %s after %d answers; the model finishes normally with %d' % (t, a['end'], a['count'], mn['count'])
             if a['answers'] != mn['answers'] or (a['end'] == 'done' and a['count'] != mn['count']):
                 return '%s: engine with Python predicates differs from the model (%d vs %d answers)' % (t, a['count'], mn['count'])
-            if a0['answers'] != b0['answers'] or a0['count'] != b0['count']:
+            if a['answers'] != b['answers'] or a['count'] != b['count']:
                 return '%s: Python predicates and compiled predicates give different answers (%d vs %d)' % (t, a['count'], b['count'])
             if m[2] and a['count'] <= LIMIT:
                 mv = [repr(bool(x)) for x in m[2][0]]
@@ -714,7 +725,7 @@ def oracle_mixed(case, io):
                 if a['same'] is None or a['end'] != expected_end(case['native'][a['same']]):
                     return '%s: the exception of the Python predicate did not reach the consumer unchanged (%s, same object: %s)' % (t, a['end'], a['same'])
             if not raising and a['end'] in ('done', 'cap') and b['end'] in ('done', 'cap'):
-                if a['answers'] != b['answers'] or a['count'] != b['count']:
+                if same_modulo_findall(a, b):
                     return '%s: Python predicates and compiled predicates give different answers (%d vs %d)' % (t, a['count'], b['count'])
     bad = [x for x in io.get('argtypes', []) if x not in ('Atom', 'Variable', 'Functor', 'int', 'str')]
     if bad:
